@@ -42,7 +42,7 @@ def problem_record(pid, text, formats):
         uses.setdefault(lf["name"], []).append(list(lf["idx"]))
     params = [{"name": n, **kernels.fmt_record(formats[n]), "uses": uses[n]} for n in names]
     rhs_idx = list(dict.fromkeys(i for lf in exprs.leaves(asg["rhs"]) for i in lf["idx"]))
-    return {"id": pid, "text": text, "params": params, "sizes": dict({i: sizes[r] for i, r in cls.items()}, _=0),
+    return {"id": pid, "text": text, "target": asg["target"], "params": params, "sizes": dict({i: sizes[r] for i, r in cls.items()}, _=0),
             "indexes": rhs_idx}
 
 
